@@ -94,6 +94,42 @@ func runRD(rtype uint8, lo, hi []byte, keys [][]byte, reverse bool) string {
 	return hx.HL(got)
 }
 
+// runDR: put the keys into the empty mem engine, WriteBatch.DeleteRange(lo, hi), list what is left
+func runDR(lo, hi []byte, keys [][]byte) string {
+	eng := rawEngine()
+	wb := eng.NewWriteBatch()
+	for _, k := range keys {
+		wb.Put(k, []byte("v"))
+	}
+	if err := eng.Write(wb); err != nil {
+		return "err"
+	}
+	wb.Clear()
+	wb.DeleteRange(lo, hi)
+	if err := eng.Write(wb); err != nil {
+		return "err"
+	}
+	wb.Clear()
+	it, err := engine.NewDBRangeIteratorWithOpts(eng, engine.IteratorOpts{Range: engine.Range{Min: []byte{0}, Max: []byte{0xff, 0xff, 0xff, 0xff}, Type: common.RangeClose}})
+	if err != nil {
+		return "err"
+	}
+	var got [][]byte
+	for ; it.Valid(); it.Next() {
+		got = append(got, append([]byte{}, it.RefKey()...))
+	}
+	it.Close()
+	for _, k := range got {
+		wb.Delete(k)
+	}
+	eng.Write(wb)
+	wb.Destroy()
+	if len(got) == 0 {
+		return "~"
+	}
+	return hx.HL(got)
+}
+
 // ---------- the scenario ----------
 
 type collID struct {
